@@ -1,6 +1,6 @@
 //! C08 Fallback policies change only what they name and flag exactly what they replace.
 
-use chrono::NaiveDate;
+use chrono::{Datelike, NaiveDate};
 use islamic_prayer_times::Prayer;
 use proptest::prelude::*;
 use serde::{Deserialize, Serialize};
@@ -139,6 +139,32 @@ impl Prop for C08 {
                     let d = 10f64.powf(e * 5.0 / 3.0 - 3.0); // 1e-8 .. 1e-3
                     spec.policy_lat = F((site.lat.0 + sgn * d).clamp(-66.0, 66.0));
                 }
+                let mut site = site;
+                let mut date = date;
+                if (60..72).contains(&k) {
+                    // polar-night edge with an interval-defined Fajr/Isha: |lat| 66.4..69.6 within ~5 weeks of the winter
+                    // solstice of that hemisphere, Umm al-Qurra / fixed Isha or custom intervals, a policy that acts
+                    // only on invalid times (or angle-based)
+                    let t = (k - 60) as f64 / 11.0;
+                    let north = up;
+                    site.lat = F((66.4 + 3.2 * ((t * 7.0 + (-e)).fract())) * if north { 1.0 } else { -1.0 });
+                    let doy_off = ((-e) / 3.0 * 70.0) as i64 - 35;
+                    let base = chrono::NaiveDate::from_ymd_opt(date.year().clamp(1601, 2398), if north { 12 } else { 6 }, 21).unwrap();
+                    date = base + chrono::Duration::days(doy_off);
+                    if !gen::policy_is_invalid_kind(spec.policy) && spec.policy != gen::P_ANGLE {
+                        spec.policy = [gen::P_NL_FI_INV, gen::P_NGD_FI_INV, gen::P_7N_INV, gen::P_7D_INV, gen::P_ANGLE][k as usize % 5];
+                    }
+                    if !gen::policy_consumes_intervals(spec.policy) {
+                        if k % 3 == 0 {
+                            spec.method = 7 + (k % 2);
+                        } else {
+                            spec.isha_interval = Some(F(30.0 + 10.0 * (k % 7) as f64));
+                            if k % 2 == 0 {
+                                spec.fajr_interval = Some(F(45.0 + 5.0 * (k % 5) as f64));
+                            }
+                        }
+                    }
+                }
                 Case { site, spec, date, polar_day_edge: None }
             })
             .prop_flat_map(|c| prop_oneof![30 => Just(None), 1 => (0u8..10).prop_map(Some)].prop_map(move |e| Case { polar_day_edge: e, ..c.clone() }))
@@ -182,7 +208,10 @@ impl Prop for C08 {
                 }
             }
         }
-        // interval-defined Fajr/Isha: "conventionally valid" also requires the nominal angle event to exist (polar-night sliver)
+        // interval-defined Fajr/Isha (Maghrib + n min / Shurooq - n min): on the polar-night sliver where the Sun's
+        // upper limb still rises but its centre does not reach the nominal 0 deg event, the conventional time exists
+        // (policy None reports Maghrib + n). "Conventionally valid" is taken literally - valid in the conventional
+        // result - so an 'only if invalid' policy must return it unchanged and unflagged there too (D12).
         let (lat, gmt) = (c.site.lat.0, c.site.gmt.0);
         let d0 = ephem::dec0(c.date, gmt);
         let (fa, ia, _) = cs.angles();
@@ -190,19 +219,16 @@ impl Prop for C08 {
         let nominal_exists = |angle: f64| -> bool {
             let h = -angle;
             let margin = (h - ephem::min_alt(lat, d0)).min(ephem::max_alt(lat, d0) - h);
-            margin >= 0.05
+            margin >= 0.0
         };
-        let fajr_exempt = cfi != 0.0 && !nominal_exists(fa);
-        let isha_exempt = cii != 0.0 && !nominal_exists(ia);
+        if (cfi != 0.0 && !nominal_exists(fa) && conv[&Prayer::Fajr].is_ok()) || (cii != 0.0 && !nominal_exists(ia) && conv[&Prayer::Isha].is_ok()) {
+            st.class("interval_defined_time_valid_although_its_nominal_angle_event_does_not_exist");
+        }
         let all_six_exist = SIX.iter().all(|(p, _)| conv[p].is_ok());
         // (b) 'only if invalid' policies return every conventionally valid Fajr/Isha unchanged and unflagged
         if gen::policy_is_invalid_kind(pol) {
-            for (p, i, exempt) in [(Prayer::Fajr, 1usize, fajr_exempt), (Prayer::Isha, 6usize, isha_exempt)] {
+            for (p, i) in [(Prayer::Fajr, 1usize), (Prayer::Isha, 6usize)] {
                 if conv[&p].is_ok() {
-                    if exempt {
-                        st.skip("interval_defined_time_whose_angle_event_does_not_exist");
-                        continue;
-                    }
                     if got[&p] != conv[&p] {
                         return Err(Failure::new(
                             format!("invalid-only-policy-changed-valid:{}:{}", PRAYER_NAMES[i], gen::POLICY_NAMES[pol as usize]),
@@ -214,7 +240,7 @@ impl Prop for C08 {
             }
         }
         // (b') identity on days where all six exist ('invalid' policies and AngleBased)
-        if (gen::policy_is_invalid_kind(pol) || pol == gen::P_ANGLE) && all_six_exist && !fajr_exempt && !isha_exempt {
+        if (gen::policy_is_invalid_kind(pol) || pol == gen::P_ANGLE) && all_six_exist {
             for (p, i) in SIX {
                 if got[&p] != conv[&p] {
                     return Err(Failure::new(
